@@ -163,8 +163,55 @@ func runScript(t *testing.T, run *vt.Run, c vt.CaseID, rng *rand.Rand, gossip bo
 			}
 			log("start %s (%s)", in.Writer, id.cfg.Kind)
 		}
+		// steal: while a full lifecycler observes its tokens (JOINING), somebody else ends up with one of them
+		// (what token-conflict resolution on a gossip ring does): an environment write moves the smallest token
+		// of its entry to a foreign entry. The lifecycler has to notice at the end of the observe period, replace
+		// the token and keep observing.
+		thefts := 0
+		steal := func() {
+			for _, id := range ids {
+				in := id.cur()
+				if gossip || in == nil || in.Full == nil || id.cfg.Observe <= 0 || in.Svc().State() != services.Running || in.Full.GetState() != ring.JOINING {
+					continue
+				}
+				e, ok := curDesc().Ingesters[id.cfg.ID]
+				if !ok || e.State != ring.JOINING || len(e.Tokens) < 2 {
+					continue
+				}
+				// only on the replacing store and only at a quiescent point (no virtual time passes): the lifecycler
+				// reads the edited entry at its next observe tick. (An edit landing between the token check and the
+				// ACTIVE write of one tick would be kept as it is by the lifecycler; that window is outside the
+				// statement, which has no third-party editors.)
+				var cl kv.Client = st.Client("thief")
+				thefts++
+				tid := fmt.Sprintf("thief-%d", thefts)
+				stolen := uint32(0)
+				err := cl.CAS(context.Background(), lcsim.Key, func(in interface{}) (interface{}, bool, error) {
+					d := ring.GetOrCreateRingDesc(in)
+					ve, ok := d.Ingesters[id.cfg.ID]
+					if !ok || len(ve.Tokens) < 2 || ve.State != ring.JOINING {
+						return nil, false, nil
+					}
+					now := time.Now().Unix()
+					stolen = ve.Tokens[0]
+					ve.Tokens = append([]uint32(nil), ve.Tokens[1:]...)
+					d.Ingesters[id.cfg.ID] = ve
+					d.Ingesters[tid] = ring.InstanceDesc{Id: tid, Addr: tid, Zone: "z9", State: ring.ACTIVE, Timestamp: now, RegisteredTimestamp: now, Tokens: []uint32{stolen}}
+					return d, true, nil
+				})
+				synctest.Wait()
+				if err == nil && stolen != 0 {
+					run.Count("tokens_stolen_during_observe", 1)
+					log("token %d of %s moved to %s while it observes", stolen, id.cfg.ID, tid)
+				}
+				return
+			}
+		}
 		steps := 15 + rng.IntN(40)
 		for step := 0; step < steps; step++ {
+			if rng.IntN(10) == 0 {
+				steal()
+			}
 			id := ids[rng.IntN(n)]
 			in := id.cur()
 			before := rlog.N()
